@@ -142,7 +142,7 @@ func (e *Exec) callSSA(caller *frame, pos token.Pos, fn *ssa.Function, args []Va
 			return extNondetPick(e, caller, pos, fn, args)
 		}
 	}
-	if e.inInit == 0 && (e.pureDepth > 0 || isPureName(fn)) {
+	if e.inInit == 0 && (e.pureDepth > 0 || isPureName(fn) || e.cfg.PureFns[name]) {
 		return e.callPure(caller, pos, fn, args, env)
 	}
 	if e.inInit > 0 && fn.Name() == "init" && fn.Synthetic != "" && len(e.initPkg) > 0 && fn.Pkg != e.initPkg[len(e.initPkg)-1] {
@@ -363,7 +363,10 @@ func (e *Exec) prepareCall(fr *frame, instr ssa.Instruction, c *ssa.CallCommon) 
 		if recv.t == nil {
 			e.tpanic(fr, instr, "nil interface method call ("+c.Method.Name()+")")
 		}
-		f := e.prog.LookupMethod(recv.t, c.Method.Pkg(), c.Method.Name())
+		var f *ssa.Function
+		if sel := e.prog.MethodSets.MethodSet(recv.t).Lookup(c.Method.Pkg(), c.Method.Name()); sel != nil {
+			f = e.prog.MethodValue(sel)
+		}
 		if f == nil {
 			panic(unsupported(fmt.Sprintf("no method %s on %s", c.Method.Name(), recv.t)))
 		}
